@@ -4,7 +4,8 @@
    the [dev_fail]-th note_on / control / program_change call of the device raising, an action callback raising an
    Exception (CbExc) or StopIteration (CbStop). *)
 From Isobar Require Import Base.Prelude Sched.Model Sched.TimeProofs Sched.MergeProofs Sched.FaultProofs Sched.RenameProofs Sched.TickFrame Sched.ReachProofs
-  Sched.ExcClass Sched.ExcClassProofs Sched.Reconf Sched.ReconfProofs IO.MidiBytes IO.FileWire IO.FileWireProofs Sched.DevFile Sched.DevFileProofs.
+  Sched.ExcClass Sched.ExcClassProofs Sched.Reconf Sched.ReconfProofs IO.MidiBytes IO.FileWire IO.FileWireProofs Sched.DevFile Sched.DevFileProofs
+  Sched.RunLoop Sched.RunLoopProofs.
 
 (** * Tolerant mode: containment *)
 (* With ignore_exceptions, for EVERY state of the timeline (any number and order of tracks, any streams, any device
@@ -492,4 +493,78 @@ Example C17_device_nonvacuous :
   /\ (let ticks := sched_ticks (dv_cfg (Some 5%nat)) dv_h in
       let with_refused := firstn 2 ticks ++ [[NoteOff 2 71 64; NoteOn 1 130 64; NoteOn 0 62 64; NoteOn 2 72 64]] ++ skipn 3 ticks in
       file_written (wire_ops 480 with_refused) = sched_file 480 (dv_cfg (Some 5%nat)) dv_h).
+Proof. vm_compute. repeat split. Qed.
+
+(** * run(), and a timeline object used for several runs (Sched/RunLoop.v) *)
+(* [run_loop cfg budget tl]: Timeline.run() from the state tl - tick until something is raised, then [run_decision]: StopIteration ->
+   return; an exception -> re-raise iff ignore_exceptions is off.  The decision is a function of the switch in force and of what
+   the tick raised; the life of the object (earlier runs in the foreground or on a background thread, stop(), reset()) enters
+   only through the state it left.  [life cfg tl l]: the observations of a life l over the alphabet LOp / LRun / LBackground / LStop / LReset. *)
+Theorem C17_run_end : forall cfg b tl,
+  snd (run_loop cfg b tl) = match first_stop cfg b tl with Some r => run_decision (ignore_exc cfg) r | None => RunBudget end.
+Proof. exact run_loop_end. Qed.
+(* tolerance enabled, run() from ANY state: no tick of the run returns an exception; run() neither raises nor swallows *)
+Theorem C17_run_contained : forall cfg b tl, ignore_exc cfg = true ->
+  first_stop cfg b tl <> Some RException
+  /\ (let e := snd (run_loop cfg b tl) in e = RunReturned \/ e = RunBudget \/ e = RunOutOfFuel).
+Proof. exact run_loop_contained. Qed.
+(* tolerance disabled, run() from ANY state: it raises to its caller exactly when a tick of the run returns an exception, and it
+   never swallows one *)
+Theorem C17_run_propagates : forall cfg b tl, ignore_exc cfg = false ->
+  (snd (run_loop cfg b tl) = RunRaised <-> first_stop cfg b tl = Some RException).
+Proof. exact run_loop_propagates. Qed.
+Theorem C17_run_never_swallows : forall cfg b tl, ignore_exc cfg = false -> snd (run_loop cfg b tl) <> RunSwallowed.
+Proof. exact run_loop_never_swallows. Qed.
+Theorem C17_run_clock : forall cfg b tl,
+  let '(tl', cs, e) := run_loop cfg b tl in
+  e <> RunBudget -> now tl' = now tl + (Z.of_nat (length cs) - 1) * tau cfg.
+Proof. exact run_loop_now. Qed.
+(* a run made at the end of any life is run() from the state that life left ... *)
+Theorem C17_life_later_run : forall cfg l b tl,
+  life cfg tl (l ++ [LRun b]) =
+    life cfg tl l ++ [ORun (snd (fst (run_loop cfg b (life_state cfg tl l)))) (snd (run_loop cfg b (life_state cfg tl l)))].
+Proof. exact life_later_run. Qed.
+(* ... and whether the earlier runs were made in the foreground or on a background thread makes no difference to anything later *)
+Theorem C17_life_background_is_foreground : forall cfg l tl,
+  life cfg tl (map in_foreground l) = life cfg tl l /\ life_state cfg tl (map in_foreground l) = life_state cfg tl l.
+Proof. exact life_background_is_foreground. Qed.
+(* the states of a life (after any letter, between the ticks of a run, inside a tick) keep track ids distinct, so in every later
+   run: tolerant -> the failing track and only it is removed; intolerant -> a fault in the first tick of the run makes run() raise *)
+Theorem C17_life_reachable : forall cfg l, lreachable cfg (life_state cfg tl0 l).
+Proof. exact life_reachable. Qed.
+Theorem C17_life_failing_track_removed : forall cfg tl id tr tr1 c n1, lreachable cfg tl -> ignore_exc cfg = true ->
+  find_track id (tracks tl) = Some tr ->
+  track_tick_a cfg (now tl) tr (dev_calls tl) = (tr1, c, n1, TRaise) ->
+  let '(tl', c', ab) := tick_one cfg tl id in
+  ab = None /\ c' = c
+  /\ find_track id (tracks tl') = None
+  /\ (forall id', id' <> id -> find_track id' (tracks tl') = find_track id' (tracks tl))
+  /\ actions tl' = actions tl ++ release_actions tr1
+  /\ now tl' = now tl.
+Proof. exact life_fault_removed. Qed.
+Theorem C17_life_later_run_raises : forall cfg l b, ignore_exc cfg = false ->
+  let tl := life_state cfg tl0 l in
+  snd (phase_tracks cfg (tick_pre tl) (map t_id (tracks (tick_pre tl))) []) = RException ->
+  snd (run_loop cfg (S b) tl) = RunRaised.
+Proof. exact life_later_run_raises. Qed.
+
+(* a piece is played to its end on a background thread; two more tracks are scheduled, one of which faults on its second event;
+   the timeline is run in the foreground: intolerant -> run() raises on the third tick of that run; tolerant -> it plays to the end;
+   the same after stop() and reset(); and the same life with the first run made in the foreground *)
+Definition lf_cfg (tolerant : bool) : config := mkConfig 1 [] 0 0 true tolerant None 8.
+Definition lf_l (first : nat -> lop) (between : list lop) : list lop :=
+  [ LOp (OSchedule (mkStream [nt 1 60 0 1; nt 1 62 0 1] 0 false) None None None true None true); first 50%nat ] ++ between ++
+  [ LOp (OSchedule (mkStream [nt 2 50 1 1; RRaise] 0 false) None None None true None true);
+    LOp (OSchedule (mkStream [nt 1 70 2 1; nt 1 71 2 1; nt 1 72 2 1; nt 1 73 2 1] 0 false) None None None true None true);
+    LRun 50%nat ].
+Example C17_life_nonvacuous :
+  runs_of (life (lf_cfg false) tl0 (lf_l LBackground [])) =
+    [ ([[CNoteOn 60 64 0]; [CNoteOff 60 0; CNoteOn 62 64 0]; [CNoteOff 62 0]], RunReturned);
+      ([[CNoteOn 50 64 1; CNoteOn 70 64 2]; [CNoteOff 50 1; CNoteOff 70 2; CNoteOn 71 64 2]; [CNoteOff 71 2]], RunRaised) ]
+  /\ map snd (runs_of (life (lf_cfg true) tl0 (lf_l LBackground []))) = [RunReturned; RunReturned]
+  /\ map (fun r => length (fst r)) (runs_of (life (lf_cfg true) tl0 (lf_l LBackground []))) = [3; 5]%nat
+  /\ runs_of (life (lf_cfg false) tl0 (lf_l LRun [])) = runs_of (life (lf_cfg false) tl0 (lf_l LBackground []))
+  /\ map snd (runs_of (life (lf_cfg false) tl0 (lf_l LBackground [LStop; LReset]))) = [RunReturned; RunRaised]
+  /\ now (life_state (lf_cfg false) tl0 (lf_l LBackground [])) = 4 /\ now (life_state (lf_cfg false) tl0 (lf_l LBackground [LStop; LReset])) = 2
+  /\ first_stop (lf_cfg false) 50 (life_state (lf_cfg false) tl0 (firstn 4 (lf_l LBackground []))) = Some RException.
 Proof. vm_compute. repeat split. Qed.
